@@ -147,7 +147,7 @@ pub fn assign_ids(l: &mut Level) {
                 *next += 1;
             }
             Node::Cmd(c) => go(&mut c.level.body, next),
-            Node::Pure(_) | Node::Fail(_) => {}
+            Node::Pure(_) | Node::Fail(_) | Node::Any(_) => {}
             Node::Seq(xs) | Node::Alt(xs) | Node::Adjacent(xs) => {
                 for x in xs {
                     go(x, next);
